@@ -127,6 +127,28 @@ def respond (line : String) : String :=
       | .ok c => Sexp.toString (l [a "ok", c.toSexp])
       | .error e => Sexp.toString (errSexp e)
     | _, _ => "(bad-request evaluate)"
+  | some (.atom "leading" :: ts) =>
+    -- (leading (e11 e12 ...) (e21 ...) ...): `_get_leading_terms` on exponent vectors
+    match ts.mapM (fun (t : Sexp) => match t with
+        | .list xs => xs.mapM (fun (x : Sexp) => match x with | .atom s => s.toNat? | _ => none)
+        | _ => none) with
+    | some terms => Sexp.toString (l [a "ok", l ((leadingTerms terms).map fun (t : List Nat) => l (t.map fun (n : Nat) => a (toString n)))])
+    | none => "(bad-request leading)"
+  | some (.atom "highwater" :: anc :: inR :: outR :: cs) =>
+    -- (highwater <anc> <in> <out> (<inflow> <outflow> <hw>) ...): rationals written p/q
+    let rat : Sexp → Option Rat := fun x => match x with
+      | .atom s => (match s.splitOn "/" with
+          | [p, q] => do let p ← p.toInt?; let q ← q.toNat?; if q = 0 then none else some (mkRat p q)
+          | [p] => p.toInt?.map fun p => (p : Rat)
+          | _ => none)
+      | _ => none
+    match rat anc, rat inR, rat outR, cs.mapM (fun (c : Sexp) => match c with
+        | .list [i, o, h] => do some (⟨← rat i, ← rat o, ← rat h⟩ : ChildFlow Rat)
+        | _ => none) with
+    | some anc, some inR, some outR, some cs =>
+      let v : Rat := highwaterImpl anc inR outR cs
+      Sexp.toString (l [a "ok", a (toString v.num), a (toString v.den)])
+    | _, _, _, _ => "(bad-request highwater)"
   | some (.atom "echo" :: e :: _) =>
     match Expr.ofSexp e with
     | some e => Sexp.toString e.toSexp
